@@ -39,7 +39,17 @@ class HierarchyFilter(Filter):
 
     @property
     def parent_changed(self):
-        return hashobj(self._parent_rtdc_ds.filter.all) != self._parent_hash
+        return self._get_parent_hash() != self._parent_hash
+
+    def _get_parent_hash(self):
+        """Hash identifying the events the parent passes on to the child
+
+        The boolean filter array of the parent alone is not sufficient,
+        because the events of the parent may change (if the parent is a
+        hierarchy child itself) while its filter array stays the same.
+        """
+        parent = self._parent_rtdc_ds
+        return hashobj([parent.filter.all, parent.hash])
 
     def apply_manual_indices(self, rtdc_ds, manual_indices):
         """Write to `self.manual`
@@ -137,4 +147,4 @@ class HierarchyFilter(Filter):
         # hold reference to rtdc_ds parent
         # (not to its filter, because that is reinstantiated)
         self._parent_rtdc_ds = parent_rtdc_ds
-        self._parent_hash = hashobj(self._parent_rtdc_ds.filter.all)
+        self._parent_hash = self._get_parent_hash()
